@@ -18,7 +18,7 @@ RULE = (
 )
 ASSUMPTIONS = [
     "an edge with two admissible weights may contribute either weight to the cycle latency",
-    "the LCD column of the text report is compared with the reported cycles in C13",
+    "the LCD column is read back from Frontend.combined_view with the positional report parser",
 ]
 MIN_NONTRIVIAL = {"quick": 300, "thorough": 3000}
 
@@ -87,6 +87,28 @@ def check_case(case):
     if abs(float(d["Summary"]["LCD"]) - exp_max) > 1e-9:
         raise Violation("lcd-summary:" + tag, "Summary.LCD is not the maximum cycle latency", d["Summary"]["LCD"],
                         exp_max)
+    # the LCD column of the combined view marks the members of one cycle attaining the maximum, each with its
+    # edge latency (a member contributing 0 cycles is still a member)
+    from lib import report
+    lcd_raw = dg.get_loopcarried_dependencies()
+    cp_k = guard(dg.get_critical_path, what="get_critical_path")
+    text = guard(fe.combined_view, kernel, cp_k, lcd_raw, True, what="combined_view")
+    try:
+        rep = report.parse(text)
+    except report.ReportError as e:
+        raise Violation("report-format", "combined view cannot be parsed back: %s" % e, text[-400:], None)
+    fl = case.get("first_line", 0)
+    marked = {l["lineno"] - fl - 1: float(l["lcd"]) for l in rep["lines"] if l["lcd"] != ""}
+    cands = [{n.line_number - fl - 1: float(lat) for n, lat in v["dependencies"]} for v in lcd_raw.values()
+             if abs(float(v["latency"]) - exp_max) < 1e-9]
+    if (cands and marked not in cands) or (not cands and marked):
+        zero = any(any(x == 0.0 for x in c.values()) for c in cands)
+        raise Violation("lcd-column:%s%s" % (tag, ":zero-latency-member" if zero else ""),
+                        "the LCD column does not mark exactly the members of one cycle attaining the maximum",
+                        {str(k): v for k, v in sorted(marked.items())},
+                        [{str(k): v for k, v in sorted(c.items())} for c in cands])
+    if rep["summary"] is not None and abs(float(rep["summary"]["lcd"]) - exp_max) > 1e-9:
+        raise Violation("lcd-summary-row:" + tag, "LCD figure of the summary row", rep["summary"]["lcd"], exp_max)
     cyc = list(ref)
     share = any(a & b for i, a in enumerate(cyc) for b in cyc[i + 1:])
     multi = any(len(c) >= 2 for c in cyc)
@@ -100,6 +122,8 @@ def check_case(case):
         cl.append("line-numbers>=1000")
     if case["flagdeps"]:
         cl.append("flagdeps")
+    if any(any(x == 0.0 for x in c.values()) for c in cands):
+        cl.append("max-cycle-has-zero-latency-member")
     return {"nontrivial": share or multi or selfplus, "classes": cl,
             "key": [case["forms"], case["kernel"], case["flagdeps"], case.get("first_line", 0)],
             "sample": {"isa": case["isa"], "first_line": case.get("first_line", 0) + 1,
